@@ -635,6 +635,28 @@ def core_runs(ctx, nprogs, per_prog, gen, nws):
     return progs, runs
 
 
+def best_bind_trace(res, fails, binds, limit=40):
+    """the accepted trace (several workers preferred) to which most of the corruptions apply"""
+    bad = set(f['trace'] for f in fails)
+    cands = [r for r in res if r['rc'] == 0 and r['trace'] not in bad]
+    cands.sort(key=lambda r: (r['nw'] <= 1,))
+    best, bestn = None, -1
+    for r in cands[:limit]:
+        evs = read_trace(r['trace'])
+        n = 0
+        for name, fn in binds:
+            try:
+                if fn([dict(e, a=list(e['a'])) for e in evs]) is not None:
+                    n += 1
+            except Exception:
+                pass
+        if n > bestn:
+            best, bestn = r['trace'], n
+        if n == len(binds):
+            break
+    return best
+
+
 def first_good(res, fails):
     bad = set(f['trace'] for f in fails)
     for r in res:
@@ -695,7 +717,7 @@ def std_check(ctx, designs, gen, nprogs, per_prog, binds, nws=None, cov=None, th
         progs2, runs2 = core_runs(ctx, max(nprogs * mult // 2, 4), per_prog, gen, nws)
         ctx.seed -= 1000
         traced_check(ctx, binq, progs2, runs2, CORE_INV, label='q')
-    g = first_good(res, fails)
+    g = best_bind_trace(res, fails, binds) if binds else None
     if g and binds:
         bind_selftest(ctx, g, CORE_INV, binds)
     ctx.assumptions += ['serialized (sequentially consistent) executions; hooks adjacent to the accesses they describe',
